@@ -262,6 +262,8 @@ def generate(streams: Streams, tier: str, index: int) -> dict:
         span = min(t1 - t0, 6 * dt)
         start2 = frng.choice([t0, t1, 0, t1 + 3 * dt])
         case["second_run"] = [start2, start2 + span]
+    if mode != "A" and streams["config"].random() < 0.15:
+        case["field_dtype"] = "float32"
     if frng.random() < 0.25:
         case["disk_fault"] = {"kind": frng.choice(["enospc", "eio", "enospc_torn", "truncate_eio"]),
                               "k": frng.randint(1, 12)}
@@ -300,6 +302,18 @@ def resolve_source(s):
     return SOURCES[s] if isinstance(s, str) else s
 
 
+def _solver_info(dt) -> dict:
+    """Diagnostic information as real py-pde solvers report it (adaptive solvers store a
+    statistics object, counters are numpy integers): trackers receive it in finalize."""
+    from pde.tools.math import OnlineStatistics
+
+    stats = OnlineStatistics()
+    stats.add(float(dt))
+    return {"class": "ScriptedSolver", "dt": dt, "dt_adaptive": True, "steps": np.int64(3),
+            "dt_statistics": stats, "state_modifications": np.float64(0.0),
+            "backend": {"name": "numpy", "device": None}}
+
+
 class ScriptedSolver:
     """Duck-typed py-pde solver whose stepper plays pre-rendered frames."""
 
@@ -308,7 +322,7 @@ class ScriptedSolver:
     def __init__(self, frames_data, dt, clock, costs, end, collection, log, cnt):
         self.frames_data, self.dt, self.clock, self.costs = frames_data, dt, clock, costs
         self.end, self.collection, self.log, self.cnt = end, collection, log, cnt
-        self.info = {"dt": dt}
+        self.info = _solver_info(dt)
         self.steps = 0
 
     def make_stepper(self, state, dt=None):
@@ -611,6 +625,11 @@ def execute(case: dict) -> Outcome:
 
     # ---- run
     frames_data = [scenes.render(f).data for f in case["frames"]] if mode != "A" else []
+    if case.get("field_dtype"):
+        # a simulation state in reduced precision: the frames the trackers see (and that are
+        # analysed offline afterwards) are single-precision fields
+        frames_data = [d.astype(np.dtype(case["field_dtype"])) for d in frames_data]
+        cnt.inc("probe.reduced_precision_state")
     grid = scenes.make_grid(grid_spec)
     finalized = False
     run_exc = None
@@ -669,6 +688,19 @@ def execute(case: dict) -> Outcome:
             else:
                 cnt.inc("probe.run_raised_other")
                 log.add("run_raised", exc=err.text)
+                if err.frame.startswith("trackers.py:finalize") or any(
+                        "finalize" in fs_.name and "/droplets/" in fs_.filename.replace("\\", "/")
+                        for fs_ in __import__("traceback").extract_tb(run_exc.__traceback__)):
+                    aborted.setdefault("finalize_errors", []).append(("run", err))
+    for what, err in aborted.get("finalize_errors", []):
+        # no disk fault was injected: the file must be written (droplet tracker) and the
+        # length-scale tracker must not raise
+        V.append(Violation(
+            "C14.O3" if what != "length" else "C14.O4",
+            f"finalize raised {err.text} although no disk fault was injected: the recorded data "
+            f"was not written", {"tracker": what, "kind": "finalize_raised",
+                                 "exc_type": err.exc_type, "frame": err.frame}))
+        break
     n_frames = sum(len(v) for v in taps.values())
     kinds = tuple(sorted(t["type"] for t in case["trackers"]))
     ikinds = tuple(t["interrupts"]["kind"] for t in case["trackers"]) if mode != "C" else ("direct",)
@@ -698,9 +730,11 @@ def _is_number(x) -> bool:
 def _make_state(case, grid, data0):
     from pde import FieldCollection, ScalarField
 
+    dt = np.dtype(case.get("field_dtype") or data0.dtype)
     if case["collection"]:
-        return FieldCollection([ScalarField(grid, data0), ScalarField(grid, data0)])
-    return ScalarField(grid, data0)
+        return FieldCollection([ScalarField(grid, data0.astype(dt), dtype=dt),
+                                ScalarField(grid, data0.astype(dt), dtype=dt)])
+    return ScalarField(grid, data0.astype(dt), dtype=dt)
 
 
 def _arm_disk(case, fs):
@@ -711,7 +745,9 @@ def _arm_disk(case, fs):
 
 def _drive_direct(case, objs, frames_data, grid, fs, log, cnt, aborted) -> bool:
     state0 = _make_state(case, grid, frames_data[0])
-    info: dict = {}
+    # what a Controller hands to the trackers: its own diagnostics plus the solver's
+    info: dict = {"controller": {"t_start": 0.0, "t_end": 1.0, "jit_count": {"make_stepper": 0}},
+                  "package_version": "0", "solver": _solver_info(case.get("dt", 1.0))}
     for _, tr in objs:
         tr.initialize(state0, info)
     for t, fi in case.get("schedule", []):
@@ -741,6 +777,7 @@ def _drive_direct(case, objs, frames_data, grid, fs, log, cnt, aborted) -> bool:
                 cnt.inc("probe.finalize_raised_under_disk_fault")
             else:
                 cnt.inc("probe.finalize_raised_clean")
+                aborted.setdefault("finalize_errors", []).append((spec["type"], err))
             tr._verif_finalize_failed = True
     fs.arm(None)
     return True
